@@ -194,7 +194,7 @@ template <class Out> struct gen_fn {
 
 // ---- the checks ---------------------------------------------------------------------------------------
 static std::vector<std::pair<long, long>> g_shapes;
-static int g_round = 0, g_rounds = 1;          // passes over the shapes with fresh random contents (thorough: 2)
+static int g_round = 0, g_rounds = 1;          // passes over the shapes with fresh random contents (--rounds; the native runs use 3)
 static uint64_t g_sink = 0;
 
 template <class V> static inline int t1d(V const& v) { return v.is_1d_traversable() ? 1 : 0; }
@@ -597,7 +597,7 @@ static void make_shapes() {
 
 int main(int argc, char** argv) {
     vh::init(argc, argv);
-    make_shapes(); g_rounds = vh::thorough() ? 2 : 1;
+    make_shapes(); g_rounds = (int)vh::opt_long("rounds", 1);
     typedef TK<PART>::type S;
     if (!CONVERT_ONLY) single_check<S, S::writable>::run();
     for_dst<S, 0, NTK>::run();
@@ -690,7 +690,7 @@ template <class I1, class I2> struct image_eq {
 
 int main(int argc, char** argv) {
     vh::init(argc, argv);
-    const int N = vh::thorough() ? 9 : 6; g_rounds = vh::thorough() ? 2 : 1;
+    const int N = vh::thorough() ? 9 : 6; g_rounds = (int)vh::opt_long("rounds", 1);
     for (long h = 0; h <= N; ++h) for (long w = 0; w <= N; ++w) g_shapes.push_back(std::make_pair(w, h));
     g_shapes.push_back(std::make_pair(17L, 5L)); g_shapes.push_back(std::make_pair(5L, 17L)); g_shapes.push_back(std::make_pair(33L, 2L));
     typedef gil::image<gil::rgb8_pixel_t, false, alloc_t> rgb8_i;
